@@ -365,8 +365,11 @@ def standin_multi_qubit(tier, seed):
         for order in (qs, [qs[2], qs[0], qs[1]]):
             try:
                 ops = list(cirq.quantum_shannon_decomposition(order, u))
-                if not _phase_eq(cirq.Circuit(ops).unitary(qubit_order=order, qubits_that_should_be_present=order), u, 1e-5):
+                got_qsd = cirq.Circuit(ops).unitary(qubit_order=order, qubits_that_should_be_present=order)
+                if not _phase_eq(got_qsd, u, 1e-5):
                     R.bad("quantum_shannon_decomposition: circuit differs from the input beyond a global phase", matrix=u, qubits=order)
+                elif not np.allclose(got_qsd, u, atol=1e-5):  # documented: "preserving global phase"
+                    R.bad("quantum_shannon_decomposition: circuit differs from the input by a global phase (the routine documents that it preserves it)", matrix=u, qubits=order)
                 if any(len(o.qubits) > 2 for o in ops):
                     R.bad("quantum_shannon_decomposition emitted a gate on more than two qubits", matrix=u)
             except Exception as ex:
@@ -389,11 +392,11 @@ def standin_multi_qubit(tier, seed):
         for _ in range(3 if tier == "quick" else 12):
             R.cases += 1
             u = cirq.testing.random_unitary(2 ** n, random_state=rng.randrange(10 ** 6))
-            qs = cirq.LineQubit.range(n)
+            qs = rng.choice([cirq.LineQubit.range(n), cirq.LineQubit.range(n)[::-1], rng.sample(cirq.LineQubit.range(n), n), [cirq.NamedQubit(x) for x in "zyxw"[:n]]])
             try:
                 ops = list(cirq.quantum_shannon_decomposition(qs, u))
-                if not _phase_eq(cirq.Circuit(ops).unitary(qubit_order=qs, qubits_that_should_be_present=qs), u, 1e-5):
-                    R.bad("quantum_shannon_decomposition: circuit differs from the input beyond a global phase", n=n, matrix=u)
+                if not np.allclose(cirq.Circuit(ops).unitary(qubit_order=qs, qubits_that_should_be_present=qs), u, atol=1e-5):
+                    R.bad("quantum_shannon_decomposition: circuit differs from the input (global phase included; sorted, reversed and shuffled registers)", n=n, matrix=u, qubits=qs)
             except Exception as ex:
                 R.bad(f"quantum_shannon_decomposition raised {type(ex).__name__}", n=n)
     return R.out(F + ":multi-controlled, three-qubit and Shannon synthesis", "multi-qubit", f"multi-controlled X for all shapes up to {maxm} controls with permuted qubits; controlled rotations up to 4 controls; special and random 3-qubit unitaries; Shannon on 1-4 qubits")
